@@ -48,13 +48,16 @@ SetCells(m, a, f) ==
 (* equal and is invisible through the API.                                 *)
 (***************************************************************************)
 Canon(w) ==
-    LET n      == Len(w.views)
-        used   == {w.views[i].a : i \in 1..n}
-        first(b) == CHOOSE i \in 1..n : w.views[i].a = b /\ \A j \in 1..(i-1) : w.views[j].a # b
-        rank(b)  == Cardinality({c \in used : first(c) < first(b)}) + 1
-        arr(k)   == CHOOSE b \in used : rank(b) = k
-    IN  W([k \in 1..Cardinality(used) |-> w.mem[arr(k)]],
-          [i \in 1..n |-> [w.views[i] EXCEPT !.a = rank(w.views[i].a)]])
+    LET n       == Len(w.views)
+        used    == {w.views[i].a : i \in 1..n}
+        \* evaluated once each (functions, not operators): first reference of every array, its rank, and the inverse
+        firstOf == [b \in used |-> CHOOSE i \in 1..n : w.views[i].a = b /\ \A j \in 1..(i-1) : w.views[j].a # b]
+        rankOf  == [b \in used |-> Cardinality({c \in used : firstOf[c] < firstOf[b]}) + 1]
+        arrOf   == [k \in 1..Cardinality(used) |-> CHOOSE b \in used : rankOf[b] = k]
+    IN  IF Len(w.mem) = Cardinality(used) /\ (\A b \in used : rankOf[b] = b)
+        THEN w                                   \* already canonical (the common case)
+        ELSE W([k \in 1..Cardinality(used) |-> w.mem[arrOf[k]]],
+               [i \in 1..n |-> [w.views[i] EXCEPT !.a = rankOf[w.views[i].a]]])
 
 ----------------------------------------------------------------------------
 (* Alloc: make([]T, ch*L, ch*K) -- panics like make() on L > K or negatives *)
